@@ -3,16 +3,8 @@
 import json, os
 HERE = os.path.dirname(os.path.dirname(os.path.abspath(__file__)))
 
-CHECKS = [
- dict(id="C01", engine="xstate", cat="model_checking", design="DESIGN.md §3 C01",
-      technique="explicit-state breadth-first model checking of the real implementation (all interleavings of replica actions to a completed depth, state deduplication by canonical key)",
-      text="Every interleaving of edit/push/pull actions of 2-3 real replicas up to the completed depth is executed on real repositories; in every reachable state all bugs are readable, replicas with equal operation sets show equal order and snapshot, and a synchronisation to quiescence converges. Exhaustive within the stated bounds, nothing beyond.",
-      note="Trusted: Go toolchain and -overlay seams (deterministic nonces/time per actor), go-git, the in-process transport standing for stock git, the reference reader in harness/refmodel."),
- dict(id="C02", engine="xstate", cat="model_checking", design="DESIGN.md §3 C02",
-      technique="explicit-state breadth-first model checking of the real implementation with a transition oracle (five-scenario reference model) on every pull/merge",
-      text="Same exploration as C01; every pull/merge transition is compared with a reference model of the five merge scenarios computed from raw commit ancestry: nothing lost, valid remote included, report agrees with what moved, returned entity equals the merged ref. A process crash during a merge is a violation.",
-      note="Trusted as C01; remote data is always produced by git-bug itself here (hostile data is C07)."),
-]
+CHECKS = [json.load(open(os.path.join(HERE, "tools", "manifest.d", f)))
+          for f in sorted(os.listdir(os.path.join(HERE, "tools", "manifest.d"))) if f.endswith(".json")]
 
 NOT_APPLICABLE = [
  # filled while the corresponding checks are being built; see DESIGN.md §3 for the plan of each
